@@ -170,6 +170,27 @@ def standin_logging(tier, seed):
                     violations.append(dict(key=f"fit result changes with logging ({label})"))
                 if len(samples) < 2:
                     samples.append(dict(logging=label))
+        # the other model shapes (one source, no source, one feature, shared speed): everything switched on
+        other_kinds = [("logistic", dict(source_dimension=1, dimension=3), 3), ("logistic", dict(source_dimension=0, dimension=3), 3),
+                       ("logistic", dict(dimension=1, source_dimension=0), 1), ("linear", dict(source_dimension=1, dimension=3), 3),
+                       ("shared_speed_logistic", dict(source_dimension=1, dimension=3), 3)]
+        full = [dict(print_periodicity=4, save_periodicity=4, plot_periodicity=4, plot_patient_periodicity=6),
+                dict(save_periodicity=5, plot_periodicity=10), dict(save_periodicity=4, plot_periodicity=4, plot_sourcewise=True)]
+        for k2, (kind2, kw2, n_ft2) in enumerate(other_kinds if tier == "thorough" else other_kinds[:3]):
+            df2 = cohort(seed + 5 + k2, n_ind=6, n_ft=n_ft2)
+            ref2 = params_of(fit_once(kind2, kw2, df2, seed, n_iter))
+            for q2, lg in enumerate(full):
+                lg = dict(lg, path=os.path.join(tmp, f"logs_other_{k2}_{q2}"), overwrite_logs_folder=True)
+                label = f"{kind2}{kw2}: " + ", ".join(f"{k}={v}" for k, v in lg.items() if k not in ("path", "overwrite_logs_folder")) + " with an output path"
+                evals += 1
+                distinct.add(label)
+                try:
+                    m = fit_once(kind2, kw2, df2, seed, n_iter, **lg)
+                except Exception as e:
+                    violations.append(dict(key=f"fit aborted with logging ({label}): {type(e).__name__}: {str(e)[:90]}"))
+                    continue
+                if not same_params(ref2, params_of(m)):
+                    violations.append(dict(key=f"fit result changes with logging ({label})"))
     finally:
         os.chdir(cwd)
         shutil.rmtree(tmp, ignore_errors=True)
